@@ -1,6 +1,7 @@
 import Driver.Codec
 import MW.Proto.Codec
 import MW.Proto.Nested
+import MW.Inv.WorldInv
 /-!
 # Model driver: one JSON request per line on stdin, one JSON reply per line on stdout.
 
@@ -17,6 +18,8 @@ structure DState where
   treasury : Option MW.Treasury.TState := none
   tself : String := ""
   tprefix : String := "osmo"
+  ghost : WGhost := {}          -- history counters of the world-level theorems (MW/Inv/WorldInv.lean)
+  envOK : Bool := true          -- the honest-environment conditions held at every event so far
 
 def parseFaults (j : Json) : Faults :=
   let ft := match optField j "fail_transfer" with
@@ -67,11 +70,21 @@ def handleEvent (st : DState) (w : World) (ev : Json) : DState × Json :=
   let msgJ := (ev.getObjVal? "msg").toOption.getD .null
   let fundsJ := (ev.getObjVal? "funds").toOption.getD (Json.arr #[])
   let faults := parseFaults ((ev.getObjVal? "faults").toOption.getD (Json.mkObj []))
-  let fin (r : TxResult) (fj : Json := fundsJ) : DState × Json :=
-    ({ st with world := some r.w }, txJson build r msgJ fj)
+  -- besides the transaction, report whether the history is still inside the hypotheses of the
+  -- world-level theorems and evaluate their equations on the new world (a run-time cross-check of
+  -- the statements proved in MW/Inv/WorldInv.lean against the co-simulated histories)
+  let fin (e : Event) (fj : Json := fundsJ) : DState × Json :=
+    let r := step w e
+    let ok := st.envOK && evOKb w e
+    let g := wgstep w st.ghost e
+    let j := match txJson build r msgJ fj with
+      | .obj kvs => Json.obj (kvs.insert "envelope" (.bool ok) |>.insert "winv"
+          (Json.arr ((winvChecks r.w g).map Json.bool).toArray))
+      | x => x
+    ({ st with world := some r.w, ghost := g, envOK := ok }, j)
   let bad (s : String) : DState × Json := (st, Json.mkObj [("bad", .str s)])
   match kind with
-  | "advance" => fin (step w (.advance (getNatD ev "dt") (getNatD ev "dh")))
+  | "advance" => fin (.advance (getNatD ev "dt") (getNatD ev "dh"))
   | "exec" =>
     let sender := getStr ev "sender"
     let txi : Option Nat := match ev.getObjVal? "tx" with
@@ -86,7 +99,7 @@ def handleEvent (st : DState) (w : World) (ev : Json) : DState × Json :=
         -- the message does not deserialize: the runtime rejects it before the contract runs
         (st, Json.mkObj [("committed", .bool false), ("calls", Json.arr #[
           jCallExec build sender fundsJ msgJ (.error .parse)])])
-      | .ok m => fin (step w (.exec sender funds m faults txi))
+      | .ok m => fin (.exec sender funds m faults txi)
   | "hook" =>
     let channel := getStr ev "channel"
     let ns := getStr ev "native_sender"
@@ -99,19 +112,19 @@ def handleEvent (st : DState) (w : World) (ev : Json) : DState × Json :=
         let acct := (deriveIntermediateSender channel ns w.chainPrefix).getD ""
         (st, Json.mkObj [("committed", .bool false), ("calls", Json.arr #[
           jCallExec build acct fj msgJ (.error .parse)])])
-      | .ok m => fin (step w (.hook channel ns coin m faults)) fj
-  | "ack" => fin (step w (.ack (getNatD ev "seq") (getBool ev "success")))
-  | "timeout" => fin (step w (.timeout (getNatD ev "seq")))
-  | "stray_ack" => fin (step w (.strayAck (getStr ev "channel") (getNatD ev "seq") (getBool ev "success")))
-  | "stray_timeout" => fin (step w (.strayTimeout (getStr ev "channel") (getNatD ev "seq")))
+      | .ok m => fin (.hook channel ns coin m faults) fj
+  | "ack" => fin (.ack (getNatD ev "seq") (getBool ev "success"))
+  | "timeout" => fin (.timeout (getNatD ev "seq"))
+  | "stray_ack" => fin (.strayAck (getStr ev "channel") (getNatD ev "seq") (getBool ev "success"))
+  | "stray_timeout" => fin (.strayTimeout (getStr ev "channel") (getNatD ev "seq"))
   | "donate" =>
     match parseCoin ((ev.getObjVal? "coin").toOption.getD .null) with
     | .error e => bad s!"coin: {e}"
-    | .ok coin => fin (step w (.donate (getStr ev "sender") coin))
+    | .ok coin => fin (.donate (getStr ev "sender") coin)
   | "faucet" =>
     match parseCoin ((ev.getObjVal? "coin").toOption.getD .null) with
     | .error e => bad s!"coin: {e}"
-    | .ok coin => fin (step w (.faucet (getStr ev "to") coin))
+    | .ok coin => fin (.faucet (getStr ev "to") coin)
   | _ => bad s!"unknown event {kind}"
 
 def jR {α} (f : α → Json) (r : R α) : Json :=
@@ -261,7 +274,7 @@ def handle (st : DState) (req : Json) : DState × Json :=
       | .ok (c, msgs) =>
         let w : World := { c, self, chainPrefix, timeNs, height, bal := fun _ _ => 0,
                            supply := fun _ => 0, remote := fun _ _ => 0, pkts := [], nextSeq := getNatD req "first_seq" 1 }
-        ({ st with build, world := some w }, mk (.ok msgs) true)
+        ({ st with build, world := some w, ghost := {}, envOK := true }, mk (.ok msgs) true)
   | "event" =>
     match st.world with
     | none => (st, Json.mkObj [("bad", "boot first")])
